@@ -207,6 +207,61 @@ func checkC17(w *World, r *Report) {
 		}
 	})
 
+	r.Rule("R17.7", "a value found for an empty leaf is reported against the leaf: (*empty).Validate strips only the value token from the path whenever the path holds more than the value (len(path) > 1), also for a leaf at module top level", 1)
+	r.guard("R17.7", func() {
+		sp := w.Pkg("schema")
+		fd, _ := w.FuncDecl(w.Method("schema", "empty", "Validate"))
+		pathObj := paramObj(sp, fd, 1)
+		var cond ast.Expr
+		ast.Inspect(fd.Body, func(n ast.Node) bool {
+			is, ok := n.(*ast.IfStmt)
+			if !ok {
+				return true
+			}
+			for _, ret := range returnsIn(is.Body) {
+				if len(ret.Results) == 1 {
+					if ce, ok := ret.Results[0].(*ast.CallExpr); ok && len(ce.Args) == 2 {
+						if _, isSlice := ast.Unparen(ce.Args[1]).(*ast.SliceExpr); isSlice {
+							mentions := false
+							ast.Inspect(is.Cond, func(y ast.Node) bool {
+								if id, ok := y.(*ast.Ident); ok && sp.TypesInfo.Uses[id] == pathObj {
+									mentions = true
+								}
+								return true
+							})
+							if mentions {
+								cond = is.Cond
+							}
+						}
+					}
+				}
+			}
+			return true
+		})
+		if cond == nil {
+			panic(undecided{"(*empty).Validate: guard of the path-carrying error"})
+		}
+		ok, bad := true, ""
+		func() {
+			defer func() {
+				if x := recover(); x != nil {
+					if u, isU := x.(undecided); isU {
+						ok, bad = false, u.why
+						return
+					}
+					panic(x)
+				}
+			}()
+			for _, k := range []int64{2, 3, 6} {
+				env := &guardEnv{p: sp, opaque: map[string]constant.Value{"len(" + pathObj.Name() + ")": constant.MakeInt64(k)}}
+				if !env.cond(cond) {
+					ok, bad = false, fmt.Sprintf("a path of %d tokens gets an error without location", k)
+				}
+			}
+		}()
+		r.Check(ok, "R17.7", "(*empty).Validate locates its error", fd.Pos(), "path[:len(path)-1] whenever len(path) > 1", "the error is located only when `"+types.ExprString(cond)+"` ("+bad+"): a value after a top-level empty leaf is reported with an empty path")
+	})
+
 	r.Rule("R17.4", "the error for a rejected path encodes the walked elements unambiguously: every error constructor that takes a path renders it with pathutil.Pathstr (percent-encoding), never by joining the raw tokens", 8)
 	r.guard("R17.4", func() {
 		n := 0
